@@ -6,6 +6,7 @@ package main
 // and the set algebra (codes 1, 2, 3 of PROTOCOL.md).
 
 import (
+	"encoding/json"
 	"github.com/emirpasic/gods/v2/containers"
 )
 
@@ -53,7 +54,14 @@ func (d *drv) apply(op *Op) (r string, x string) {
 		d.c.Clear()
 		return obsUnit, x
 	case "FromJSON":
-		err := d.c.FromJSON(op.JSON)
+		// the two documented entry points: FromJSON, and json.Unmarshal (UnmarshalJSON) for every other
+		// document length; the model has one FromJSON
+		var err error
+		if len(op.JSON)%2 == 0 {
+			err = d.c.FromJSON(op.JSON)
+		} else {
+			err = json.Unmarshal(op.JSON, d.c)
+		}
 		return obool(err == nil), x
 	case "Iter":
 		if d.iter == nil {
@@ -256,8 +264,7 @@ func (d *drv) applyAlgebra(op *Op) string {
 	otherBefore := before
 	self := op.Name == "InterSelf" || op.Name == "UnionSelf" || op.Name == "DiffSelf"
 	if !self {
-		other = newLike(d)
-		other.add(op.Vs...)
+		other = newLikeWith(d, op.Vs)
 		otherBefore = other.fingerprint()
 	}
 	var result *drv
